@@ -90,7 +90,11 @@ func Project(nodes []*html.Node, o Options) []El {
 				if o.Values {
 					v = a.Val
 				}
-				e.Attrs = append(e.Attrs, [2]string{a.Key, v})
+				key := a.Key
+				if a.Namespace != "" {
+					key = a.Namespace + ":" + key // xlink:href is not href
+				}
+				e.Attrs = append(e.Attrs, [2]string{key, v})
 			}
 			sort.Slice(e.Attrs, func(i, j int) bool { return e.Attrs[i][0] < e.Attrs[j][0] })
 			out = append(out, e)
